@@ -173,6 +173,38 @@ class SimPool:
             out.append((res, data))
         return out
 
+    def run_interleaved(self, a, b, permille, hashseed=0, want_events=False, step_budget=None, event_cap=None):
+        with self.lock:
+            base = self.counter
+            self.counter += 2
+            self.runs += 3  # A solo (to count its system calls), A preempted, B
+        paths = [os.path.join(self.scratch, "out%07d.bin" % (base + 1 + k)) for k in range(2)]
+        req = {"op": "interleave", "a": a, "b": b, "permille": permille, "out_paths": paths, "want_events": want_events}
+        if step_budget:
+            req["step_budget"] = step_budget
+        if event_cap:
+            req["event_cap"] = event_cap
+        if hashseed in self.queues:
+            q = self.queues[hashseed]
+            w = q.get()
+            try:
+                results = w.call(req)
+            finally:
+                q.put(w)
+        else:
+            w = SimWorker(hashseed)
+            try:
+                results = w.call(req)
+            finally:
+                w.close()
+        out = []
+        for res, pth in zip(results, paths):
+            with open(pth, "rb") as f:
+                data = f.read()
+            os.unlink(pth)
+            out.append((res, data))
+        return out
+
     def close(self):
         for w in self.all:
             w.close()
